@@ -110,6 +110,10 @@ func replay[S any](t *testing.T, prop string, run func(*testing.T, S) Result) {
 		fmt.Printf("REPLAY-FAIL property=%s verdict=%s\nobs: %s\n", prop, res.Verdict, o)
 		t.Fatalf("%s violated on replay: %s", prop, res.Verdict)
 	}
+	if os.Getenv("VERIF_SHOW_OBS") != "" {
+		o, _ := json.Marshal(res.Obs)
+		fmt.Printf("obs: %s\nlabels: %v\n", o, res.Labels)
+	}
 	fmt.Printf("REPLAY-PASS property=%s\n", prop)
 }
 
